@@ -267,3 +267,35 @@ def r5(R):
                 R.violation(where, 'the secondary connection does not share '
                             'the transaction manager')
     R.require(n >= 1, 'get_connection no longer opens a connection')
+
+
+# ------------------------------------------------------------------ C15.R6
+@rule('C15.R6', 'a datetime given as the historical point is turned into a '
+      'transaction id through its UTC form (an aware datetime with an '
+      'offset names another wall-clock reading)', min_instances=1)
+def r6(R):
+    f = R.prog.func('ZODB.DB.toTimeStamp')
+    dt = f.params[0]
+    R.instance('ZODB.DB.toTimeStamp')
+    utc = any(isinstance(c, ast.Call) and isinstance(
+        c.func, ast.Attribute) and c.func.attr in (
+            'utctimetuple', 'astimezone', 'utcoffset', 'timestamp')
+        for c in walk_local(f.node))
+    local_fields = [x for x in walk_local(f.node) if isinstance(
+        x, ast.Attribute) and isinstance(x.value, ast.Name) and
+        x.value.id == dt and x.attr in ('year', 'month', 'day', 'hour',
+                                        'minute')]
+    if not utc or (local_fields and not any(
+            isinstance(c, ast.Call) and isinstance(c.func, ast.Attribute) and
+            c.func.attr in ('utcoffset', 'astimezone')
+            for c in walk_local(f.node))):
+        x = local_fields[0] if local_fields else f.node
+        R.violation(
+            (f.module.relpath, f.qualname, 'time stamp of a datetime',
+             getattr(x, 'lineno', None)),
+            'toTimeStamp builds the time stamp from the datetime\'s own '
+            'fields without normalising to UTC: 12:30+02:00 opens the state '
+            'of 12:30 UTC instead of 10:30 UTC; past moments with a positive '
+            'offset are refused as "in the future", future ones with a '
+            'negative offset accepted',
+            key='datetime not normalised to UTC')
